@@ -4,11 +4,14 @@ package fx
 
 import (
 	"bytes"
+	"crypto/ecdsa"
+	"crypto/sha256"
 	"fmt"
 	"math/big"
 	"math/rand"
 	"os"
 	"strconv"
+	"strings"
 	"sync"
 
 	"perun.network/go-perun/apps/payment"
@@ -110,17 +113,28 @@ func Sig(i int, st *channel.State) wallet.Sig {
 	}
 	s, err := channel.Sign(Accs[i], st, 0)
 	if err != nil {
+		if strings.HasPrefix(Enc(st), "ERR:") {
+			return nil // a state that cannot be encoded cannot be signed: the callers fall back to a garbage signature
+		}
 		panic(err)
 	}
 	sigCache[k] = s
 	return s
 }
 
-// Verifies reports whether sig is participant i's signature over st.
+// Verifies reports whether sig is participant i's signature over st. It is the reference the
+// oracles use, written against the signature scheme of the sim backend (ECDSA over the SHA-256
+// digest of the state's full encoding, r || s with 32 bytes each) and not through the backends'
+// own Verify: a state that cannot be encoded has no valid signature.
 func Verifies(i int, st *channel.State, sig wallet.Sig) bool {
-	if st == nil || sig == nil {
+	if st == nil || len(sig) != 64 {
 		return false
 	}
-	ok, err := channel.Verify(Accs[i].Address(), st, sig)
-	return err == nil && ok
+	enc := Enc(st)
+	if strings.HasPrefix(enc, "ERR:") {
+		return false
+	}
+	d := sha256.Sum256([]byte(enc))
+	pk := (*ecdsa.PublicKey)(Accs[i].Address().(*simwallet.Address))
+	return ecdsa.Verify(pk, d[:], new(big.Int).SetBytes(sig[:32]), new(big.Int).SetBytes(sig[32:]))
 }
